@@ -1388,7 +1388,7 @@ def d4_gate(ctx):
         failed = None
         if verdict is not None:
             vt = norm_text(verdict)
-            mm = re.match(r'^(?:len\((\w+)\) == 0|not (\w+)|not len\((\w+)\)|len\((\w+)\) < 1)$', vt)
+            mm = re.match(r'^(?:len\((\w+)\) == 0|0 == len\((\w+)\)|not (\w+)|not len\((\w+)\)|len\((\w+)\) < 1|1 > len\((\w+)\)|len\((\w+)\) <= 0|0 >= len\((\w+)\))$', vt)
             failed = next((g for g in (mm.groups() if mm else ()) if g), None)
         okf = False
         if failed is not None and okl:
